@@ -33,6 +33,18 @@ func Run(r *mc.Run) {
 	inact, inact2 := noForced, noForced
 	inact.InactivityWait, inact2.InactivityWait, inact2.ExtraChamber = 1, 1, 2
 	only := os.Getenv("VERIF_C07_ONLY") // testing aid: "limits" = the at-the-limit exploration alone
+	// two small explorations from scripted states the general ones reach late or not at all:
+	// (a) a validator holding less than one stake unit (Token > 0, Stake == 0; house role, no minimum self stake):
+	//     its record must survive commits and its tokens stay in the equation;
+	// (b) paid withdraw records are KEPT in the queue (retention 4 blocks instead of 1): a validator slashed while
+	//     its finished records are still listed must not be charged through them again
+	retain := noForced
+	retain.WithdrawRetention = 4
+	small := func() {
+		menu := []string{"c1:", "s1:", "c1:xfer", "c1:!dsign(s1)", "s1:!dsign(c1)", "c1:vdeposit(s1)", "c1:vwithdraw(s1)", "c1:dsub(s1)"}
+		chainx.ExploreFrom(r, hooks, noForced, []string{"c1:", "c1:xfer", "c1:vwithdrawmost(s1)", "c1:!dsign(s1)", "c1:vcreate(z1)"}, []string{"tinyhouse"}, 3)
+		chainx.ExploreFrom(r, hooks, retain, menu, []string{"withdrawing", "matured"}, 4)
+	}
 	if r.Quick() {
 		r.SetBudget(600e9)
 		limits(r, noForced, freq3)
@@ -43,6 +55,7 @@ func Run(r *mc.Run) {
 		chainx.Explore(r, hooks, []chainx.ParamCfg{forced}, chainx.MenuCore, 3, 2)
 		chainx.Explore(r, hooks, []chainx.ParamCfg{dry}, chainx.MenuCore, 4, 2)
 		chainx.Explore(r, hooks, []chainx.ParamCfg{inact2}, chainx.MenuCore, 4, 1)
+		small()
 	} else {
 		r.SetBudget(45 * 60e9)
 		limits(r, noForced, freq3)
@@ -54,6 +67,7 @@ func Run(r *mc.Run) {
 		chainx.Explore(r, hooks, []chainx.ParamCfg{forced}, chainx.MenuCore, 5, 4)
 		chainx.Explore(r, hooks, []chainx.ParamCfg{dry, dry2}, chainx.MenuCore, 5, 3)
 		chainx.Explore(r, hooks, []chainx.ParamCfg{inact, inact2}, chainx.MenuCore, 5, 3)
+		small()
 	}
 	r.Assume("driver: coinbase is always an existing online chamber validator; the last online chamber validator is never taken offline")
 }
